@@ -204,13 +204,17 @@ func refQueryDecode(s string) (string, error) {
 
 const c17IRIReserved = "/#%[]=:;$&()+,!?*@'~"
 
-func refIRI(in string) string {
+func refIRI(in string) string { return refIRIWith(in, "+") }
+
+// refIRIWith: space is the user's choice of "+" (query style, what pongo2 writes) or "%20"
+// (Django's iri_to_uri); the statement only says what stays unencoded
+func refIRIWith(in, space string) string {
 	var out strings.Builder
 	for _, r := range in { // valid UTF-8 only (checked by caller)
 		if r < 128 && (isUnreserved(byte(r)) || strings.IndexByte(c17IRIReserved, byte(r)) >= 0) {
 			out.WriteRune(r)
 		} else if r == ' ' {
-			out.WriteByte('+')
+			out.WriteString(space)
 		} else {
 			var buf [4]byte
 			n := utf8.EncodeRune(buf[:], r)
@@ -327,8 +331,21 @@ func checkC17(c any, r *Rec) error {
 	if f == "removetags" {
 		tags, ok := validTagParam(cs.Param)
 		if !ok {
+			// a list with blanks, empty or odd entries: refused today; a lenient reading (trim the
+			// entries, skip what is no tag name) is admitted as long as only named tags go
 			if ferr == nil {
-				return fmt.Errorf("removetags:%q accepted an invalid tag list (result %q)", cs.Param, v.String())
+				var lenient []string
+				for _, tg := range strings.Split(cs.Param, ",") {
+					tg = strings.TrimSpace(tg)
+					if _, good := validTagParam(tg); good {
+						lenient = append(lenient, tg)
+					}
+				}
+				if want := refRemovetags(in, lenient); v.String() != want {
+					return fmt.Errorf("removetags:%q (not a clean tag list) on %q = %q; only the named tags %v may be removed: %q", cs.Param, in, v.String(), lenient, want)
+				}
+				r.Class("removetags:odd-param-read-leniently")
+				return nil
 			}
 			r.Class("removetags:invalid-param-rejected")
 			return nil
@@ -384,8 +401,8 @@ func checkC17(c any, r *Rec) error {
 			}
 		}
 		if utf8.ValidString(in) {
-			if want := refIRI(in); out != want {
-				return fmt.Errorf("iriencode(%q) = %q, reference %q", in, out, want)
+			if want, alt := refIRI(in), refIRIWith(in, "%20"); out != want && out != alt {
+				return fmt.Errorf("iriencode(%q) = %q, reference %q (or %q)", in, out, want, alt)
 			}
 		}
 	case "addslashes":
